@@ -1,1 +1,846 @@
 //! reference model: field (see DESIGN.md §4 E7)
+//!
+//! Independent, deliberately naive model of the finite fields used by `midnight-curves`, over
+//! `num_bigint::BigUint`. Nothing here calls into the library under test.
+//!
+//! * [`RefPrime`] — GF(p): values are `BigUint` in `[0, p)`; add, sub, neg, mul, square, double,
+//!   inversion (extended Euclid, and Fermat as a cross-check), `pow`, Legendre symbol by Euler's
+//!   criterion, square roots by Tonelli–Shanks, wide reduction of little-endian byte strings.
+//! * [`RefField`] — a tower `GF(p) ⊂ K₁ ⊂ K₂ …` where every step is `K[X]/(Xⁿ − ν)` with `n ∈ {2,3}`
+//!   and `ν ∈ K`. Elements are *flattened coefficient vectors* [`El`]` = Vec<BigUint>` of length
+//!   `degree()`, ordered `[c₀ flattened, c₁ flattened, …]` (so for Fp12 = Fp6[w], Fp6 = Fp2[v],
+//!   Fp2 = Fp[u] the order is c0.c0.c0, c0.c0.c1, c0.c1.c0, …, c1.c2.c1 — the order in which the
+//!   library types nest their `c0/c1/c2`). Multiplication is schoolbook polynomial multiplication
+//!   followed by the substitution `Xⁿ = ν`; inversion solves the linear system `M_x · y = 1` by
+//!   Gaussian elimination over the sub-field (no norm/conjugate formulas), so it shares nothing
+//!   with the formulas used by the implementations.
+//! * Ready-made instances of the standard parameters: BLS12-381 (`p`, `r`, Fp2 = Fp[u]/(u²+1),
+//!   Fp6 = Fp2[v]/(v³−(u+1)), Fp12 = Fp6[w]/(w²−v)), BN254 (`q`, `r`, Fq2 = Fq[u]/(u²+1),
+//!   Fq6 = Fq2[v]/(v³−(u+9)), Fq12 = Fq6[w]/(w²−v)), Jubjub `r`, secp256k1 `p`/`n`, Curve25519
+//!   `2²⁵⁵−19`/`ℓ`.
+//! * [`selftest`] — published identities about those parameters and round-trip identities of the
+//!   model; run by `setup.sh` / by every check that uses the model, so a bug here is a setup
+//!   failure, not a violation.
+
+use num_bigint::{BigInt, BigUint, Sign};
+use num_integer::Integer;
+use num_traits::{One, Zero};
+
+// ---------------------------------------------------------------------------------------------
+// helpers
+// ---------------------------------------------------------------------------------------------
+
+/// Parses a hexadecimal string (optional `0x`, underscores allowed).
+pub fn hex(s: &str) -> BigUint {
+    let t: String = s.trim_start_matches("0x").chars().filter(|c| *c != '_').collect();
+    BigUint::parse_bytes(t.as_bytes(), 16).expect("hex literal")
+}
+
+/// `0x…` lower-case hexadecimal of `v`.
+pub fn to_hex(v: &BigUint) -> String {
+    format!("0x{}", v.to_str_radix(16))
+}
+
+/// Little-endian bytes of `v`, padded with zeros to `len` bytes (panics if it does not fit).
+pub fn to_le(v: &BigUint, len: usize) -> Vec<u8> {
+    let mut b = v.to_bytes_le();
+    assert!(b.len() <= len || b[len..].iter().all(|x| *x == 0), "value does not fit {len} bytes");
+    b.resize(len, 0);
+    b
+}
+
+/// Big-endian bytes of `v`, padded to `len`.
+pub fn to_be(v: &BigUint, len: usize) -> Vec<u8> {
+    let mut b = to_le(v, len);
+    b.reverse();
+    b
+}
+
+/// Deterministic Miller–Rabin with the first 24 primes as bases (plenty for the fixed parameters
+/// that are tested here; these are published primes, the test only guards against typos).
+pub fn is_probable_prime(n: &BigUint) -> bool {
+    let two = BigUint::from(2u32);
+    if n < &two {
+        return false;
+    }
+    let small: [u32; 24] =
+        [2, 3, 5, 7, 11, 13, 17, 19, 23, 29, 31, 37, 41, 43, 47, 53, 59, 61, 67, 71, 73, 79, 83, 89];
+    for q in small {
+        let q = BigUint::from(q);
+        if n == &q {
+            return true;
+        }
+        if (n % &q).is_zero() {
+            return false;
+        }
+    }
+    let n1 = n - 1u32;
+    let s = n1.trailing_zeros().unwrap_or(0);
+    let d = &n1 >> s;
+    'bases: for a in small {
+        let mut x = BigUint::from(a).modpow(&d, n);
+        if x.is_one() || x == n1 {
+            continue;
+        }
+        for _ in 1..s {
+            x = (&x * &x) % n;
+            if x == n1 {
+                continue 'bases;
+            }
+        }
+        return false;
+    }
+    true
+}
+
+// ---------------------------------------------------------------------------------------------
+// GF(p)
+// ---------------------------------------------------------------------------------------------
+
+/// The prime field GF(p). All methods take and return canonical representatives in `[0, p)`
+/// (inputs are reduced first, so out-of-range inputs are tolerated).
+#[derive(Clone, Debug, PartialEq, Eq)]
+pub struct RefPrime {
+    pub p: BigUint,
+}
+
+impl RefPrime {
+    pub fn new(p: BigUint) -> Self {
+        assert!(p > BigUint::from(2u32) && p.is_odd(), "odd prime expected");
+        RefPrime { p }
+    }
+    pub fn from_hex(s: &str) -> Self {
+        Self::new(hex(s))
+    }
+
+    /// Number of bits of p.
+    pub fn bits(&self) -> u64 {
+        self.p.bits()
+    }
+    /// Integer → canonical representative.
+    pub fn reduce(&self, v: &BigUint) -> BigUint {
+        v % &self.p
+    }
+    /// Little-endian byte string of any length → `int mod p` (what `from_uniform_bytes` must be).
+    pub fn reduce_le_bytes(&self, bytes: &[u8]) -> BigUint {
+        BigUint::from_bytes_le(bytes) % &self.p
+    }
+    /// Big-endian byte string of any length → `int mod p`.
+    pub fn reduce_be_bytes(&self, bytes: &[u8]) -> BigUint {
+        BigUint::from_bytes_be(bytes) % &self.p
+    }
+    pub fn add(&self, a: &BigUint, b: &BigUint) -> BigUint {
+        (a + b) % &self.p
+    }
+    pub fn sub(&self, a: &BigUint, b: &BigUint) -> BigUint {
+        ((a % &self.p) + &self.p - (b % &self.p)) % &self.p
+    }
+    pub fn neg(&self, a: &BigUint) -> BigUint {
+        (&self.p - (a % &self.p)) % &self.p
+    }
+    pub fn mul(&self, a: &BigUint, b: &BigUint) -> BigUint {
+        (a * b) % &self.p
+    }
+    pub fn square(&self, a: &BigUint) -> BigUint {
+        (a * a) % &self.p
+    }
+    pub fn double(&self, a: &BigUint) -> BigUint {
+        (a + a) % &self.p
+    }
+    /// Multiplicative inverse by the extended Euclidean algorithm; `None` for 0.
+    pub fn invert(&self, a: &BigUint) -> Option<BigUint> {
+        let a = a % &self.p;
+        if a.is_zero() {
+            return None;
+        }
+        // invariant: r0 = s0 * a (mod p), r1 = s1 * a (mod p)
+        let p = BigInt::from_biguint(Sign::Plus, self.p.clone());
+        let (mut r0, mut r1) = (p.clone(), BigInt::from_biguint(Sign::Plus, a));
+        let (mut s0, mut s1) = (BigInt::zero(), BigInt::one());
+        while !r1.is_zero() {
+            let q = &r0 / &r1;
+            let r2 = &r0 - &q * &r1;
+            let s2 = &s0 - &q * &s1;
+            r0 = r1;
+            r1 = r2;
+            s0 = s1;
+            s1 = s2;
+        }
+        assert!(r0.is_one(), "modulus is not prime (gcd != 1)");
+        let inv = s0.mod_floor(&p);
+        Some(inv.to_biguint().expect("non-negative"))
+    }
+    /// Multiplicative inverse as `a^(p-2)` (Fermat); `None` for 0. Cross-check of [`invert`].
+    pub fn invert_fermat(&self, a: &BigUint) -> Option<BigUint> {
+        let a = a % &self.p;
+        if a.is_zero() {
+            None
+        } else {
+            Some(a.modpow(&(&self.p - 2u32), &self.p))
+        }
+    }
+    /// `a^e` by left-to-right square-and-multiply written out here (not `modpow`).
+    pub fn pow(&self, a: &BigUint, e: &BigUint) -> BigUint {
+        let a = a % &self.p;
+        let mut acc = BigUint::one() % &self.p;
+        for i in (0..e.bits()).rev() {
+            acc = (&acc * &acc) % &self.p;
+            if e.bit(i) {
+                acc = (&acc * &a) % &self.p;
+            }
+        }
+        acc
+    }
+    /// Legendre symbol by Euler's criterion: 0 for 0, 1 for a non-zero square, −1 otherwise.
+    pub fn legendre(&self, a: &BigUint) -> i64 {
+        let a = a % &self.p;
+        if a.is_zero() {
+            return 0;
+        }
+        let r = a.modpow(&((&self.p - 1u32) >> 1), &self.p);
+        if r.is_one() {
+            1
+        } else {
+            assert_eq!(r, &self.p - 1u32, "Euler criterion returned neither 1 nor -1: p not prime?");
+            -1
+        }
+    }
+    pub fn is_square(&self, a: &BigUint) -> bool {
+        self.legendre(a) >= 0
+    }
+    /// `(s, t)` with `p − 1 = 2^s · t`, `t` odd.
+    pub fn two_adicity(&self) -> (u32, BigUint) {
+        let n1 = &self.p - 1u32;
+        let s = n1.trailing_zeros().unwrap_or(0);
+        (s as u32, &n1 >> s)
+    }
+    /// The smallest non-square `2, 3, 4, …` of GF(p).
+    pub fn smallest_nonsquare(&self) -> BigUint {
+        let mut z = BigUint::from(2u32);
+        while self.legendre(&z) != -1 {
+            z += 1u32;
+        }
+        z
+    }
+    /// A square root by Tonelli–Shanks (`None` for non-squares). Which of the two roots is
+    /// returned is unspecified; callers compare `r²`, or `{r, −r}`.
+    pub fn sqrt(&self, a: &BigUint) -> Option<BigUint> {
+        let a = a % &self.p;
+        if a.is_zero() {
+            return Some(a);
+        }
+        if self.legendre(&a) != 1 {
+            return None;
+        }
+        let (s, t) = self.two_adicity();
+        let z = self.smallest_nonsquare();
+        let mut m = s;
+        let mut c = z.modpow(&t, &self.p);
+        let mut tt = a.modpow(&t, &self.p);
+        let mut r = a.modpow(&((&t + 1u32) >> 1), &self.p);
+        while !tt.is_one() {
+            // least i with tt^(2^i) = 1
+            let mut i = 0u32;
+            let mut x = tt.clone();
+            while !x.is_one() {
+                x = (&x * &x) % &self.p;
+                i += 1;
+            }
+            assert!(i < m, "Tonelli–Shanks invariant");
+            let mut b = c.clone();
+            for _ in 0..(m - i - 1) {
+                b = (&b * &b) % &self.p;
+            }
+            m = i;
+            c = (&b * &b) % &self.p;
+            tt = (&tt * &c) % &self.p;
+            r = (&r * &b) % &self.p;
+        }
+        debug_assert_eq!((&r * &r) % &self.p, a);
+        Some(r)
+    }
+    /// Multiplicative order of `a` divides `2^k` exactly: `a^(2^k) = 1` and `a^(2^(k−1)) ≠ 1`
+    /// (for `k = 0`: `a = 1`).
+    pub fn has_order_pow2(&self, a: &BigUint, k: u32) -> bool {
+        let a = a % &self.p;
+        if k == 0 {
+            return a.is_one();
+        }
+        let mut x = a;
+        for _ in 0..(k - 1) {
+            x = (&x * &x) % &self.p;
+        }
+        !x.is_one() && ((&x * &x) % &self.p).is_one()
+    }
+}
+
+// ---------------------------------------------------------------------------------------------
+// towers
+// ---------------------------------------------------------------------------------------------
+
+/// Flattened coefficient vector of a tower element (see the module documentation for the order).
+pub type El = Vec<BigUint>;
+
+/// One extension step `K[X]/(Xⁿ − ν)`.
+#[derive(Clone, Debug, PartialEq, Eq)]
+pub struct RefExt {
+    pub base: RefField,
+    /// 2 or 3
+    pub n: usize,
+    /// ν, an element of `base` (flattened)
+    pub nonres: El,
+}
+
+/// GF(p) or an extension tower over it.
+#[derive(Clone, Debug, PartialEq, Eq)]
+pub enum RefField {
+    Prime(RefPrime),
+    Ext(Box<RefExt>),
+}
+
+impl RefField {
+    pub fn prime(p: BigUint) -> Self {
+        RefField::Prime(RefPrime::new(p))
+    }
+    /// `self[X]/(Xⁿ − nonres)`.
+    pub fn extend(self, n: usize, nonres: El) -> Self {
+        assert!(n == 2 || n == 3);
+        assert_eq!(nonres.len(), self.degree());
+        RefField::Ext(Box::new(RefExt {
+            base: self,
+            n,
+            nonres,
+        }))
+    }
+    /// The prime sub-field.
+    pub fn prime_field(&self) -> &RefPrime {
+        match self {
+            RefField::Prime(p) => p,
+            RefField::Ext(e) => e.base.prime_field(),
+        }
+    }
+    /// Characteristic.
+    pub fn p(&self) -> &BigUint {
+        &self.prime_field().p
+    }
+    /// Degree over GF(p) = length of an [`El`].
+    pub fn degree(&self) -> usize {
+        match self {
+            RefField::Prime(_) => 1,
+            RefField::Ext(e) => e.n * e.base.degree(),
+        }
+    }
+    /// Number of elements `p^degree`.
+    pub fn order(&self) -> BigUint {
+        let mut o = BigUint::one();
+        for _ in 0..self.degree() {
+            o *= self.p();
+        }
+        o
+    }
+    pub fn zero(&self) -> El {
+        vec![BigUint::zero(); self.degree()]
+    }
+    pub fn one(&self) -> El {
+        let mut v = self.zero();
+        v[0] = BigUint::one();
+        v
+    }
+    /// Embeds an integer (reduced mod p) as a constant.
+    pub fn from_int(&self, v: &BigUint) -> El {
+        let mut e = self.zero();
+        e[0] = v % self.p();
+        e
+    }
+    pub fn is_zero(&self, a: &[BigUint]) -> bool {
+        a.iter().all(|c| (c % self.p()).is_zero())
+    }
+    /// Reduces every coefficient.
+    pub fn reduce(&self, a: &[BigUint]) -> El {
+        assert_eq!(a.len(), self.degree());
+        a.iter().map(|c| c % self.p()).collect()
+    }
+    pub fn add(&self, a: &[BigUint], b: &[BigUint]) -> El {
+        assert!(a.len() == self.degree() && b.len() == self.degree());
+        let f = self.prime_field();
+        a.iter().zip(b).map(|(x, y)| f.add(x, y)).collect()
+    }
+    pub fn sub(&self, a: &[BigUint], b: &[BigUint]) -> El {
+        assert!(a.len() == self.degree() && b.len() == self.degree());
+        let f = self.prime_field();
+        a.iter().zip(b).map(|(x, y)| f.sub(x, y)).collect()
+    }
+    pub fn neg(&self, a: &[BigUint]) -> El {
+        assert_eq!(a.len(), self.degree());
+        let f = self.prime_field();
+        a.iter().map(|x| f.neg(x)).collect()
+    }
+    pub fn double(&self, a: &[BigUint]) -> El {
+        self.add(a, a)
+    }
+    /// Schoolbook product followed by `Xⁿ = ν`.
+    pub fn mul(&self, a: &[BigUint], b: &[BigUint]) -> El {
+        assert!(a.len() == self.degree() && b.len() == self.degree());
+        match self {
+            RefField::Prime(f) => vec![f.mul(&a[0], &b[0])],
+            RefField::Ext(e) => {
+                let d = e.base.degree();
+                let n = e.n;
+                // product polynomial of degree ≤ 2n−2 over the base
+                let mut prod: Vec<El> = vec![e.base.zero(); 2 * n - 1];
+                for i in 0..n {
+                    for j in 0..n {
+                        let t = e.base.mul(&a[i * d..(i + 1) * d], &b[j * d..(j + 1) * d]);
+                        prod[i + j] = e.base.add(&prod[i + j], &t);
+                    }
+                }
+                // fold X^(n+k) = ν · X^k, from the top
+                for k in (n..2 * n - 1).rev() {
+                    let t = e.base.mul(&prod[k], &e.nonres);
+                    prod[k - n] = e.base.add(&prod[k - n], &t);
+                }
+                prod.truncate(n);
+                prod.concat()
+            }
+        }
+    }
+    pub fn square(&self, a: &[BigUint]) -> El {
+        self.mul(a, a)
+    }
+    /// Inverse; `None` for zero. For extensions: Gaussian elimination on the matrix of
+    /// "multiplication by `a`" over the sub-field.
+    pub fn invert(&self, a: &[BigUint]) -> Option<El> {
+        assert_eq!(a.len(), self.degree());
+        match self {
+            RefField::Prime(f) => f.invert(&a[0]).map(|v| vec![v]),
+            RefField::Ext(e) => {
+                if self.is_zero(a) {
+                    return None;
+                }
+                let d = e.base.degree();
+                let n = e.n;
+                // column j of M = a · X^j, as n coefficients over the base
+                let mut cols: Vec<Vec<El>> = Vec::with_capacity(n);
+                for j in 0..n {
+                    let mut xj = self.zero();
+                    xj[j * d] = BigUint::one();
+                    let c = self.mul(a, &xj);
+                    cols.push((0..n).map(|i| c[i * d..(i + 1) * d].to_vec()).collect());
+                }
+                // augmented matrix rows: [M[i][0..n] | rhs_i], rhs = e_0
+                let mut m: Vec<Vec<El>> = (0..n)
+                    .map(|i| {
+                        let mut row: Vec<El> = (0..n).map(|j| cols[j][i].clone()).collect();
+                        row.push(if i == 0 { e.base.one() } else { e.base.zero() });
+                        row
+                    })
+                    .collect();
+                for col in 0..n {
+                    let piv = (col..n).find(|r| !e.base.is_zero(&m[*r][col]))?;
+                    m.swap(col, piv);
+                    let inv = e.base.invert(&m[col][col])?;
+                    for j in 0..=n {
+                        m[col][j] = e.base.mul(&m[col][j], &inv);
+                    }
+                    for r in 0..n {
+                        if r != col && !e.base.is_zero(&m[r][col]) {
+                            let f = m[r][col].clone();
+                            for j in 0..=n {
+                                let t = e.base.mul(&f, &m[col][j]);
+                                m[r][j] = e.base.sub(&m[r][j], &t);
+                            }
+                        }
+                    }
+                }
+                let y: El = (0..n).flat_map(|i| m[i][n].clone()).collect();
+                debug_assert_eq!(self.mul(a, &y), self.one());
+                Some(y)
+            }
+        }
+    }
+    /// `a^e`, left-to-right square-and-multiply.
+    pub fn pow(&self, a: &[BigUint], e: &BigUint) -> El {
+        let a = self.reduce(a);
+        let mut acc = self.one();
+        for i in (0..e.bits()).rev() {
+            acc = self.mul(&acc, &acc);
+            if e.bit(i) {
+                acc = self.mul(&acc, &a);
+            }
+        }
+        acc
+    }
+    /// Quadratic character by Euler's criterion in this field: `a^((|K|−1)/2)` ∈ {0, 1, −1}.
+    pub fn legendre(&self, a: &[BigUint]) -> i64 {
+        if self.is_zero(a) {
+            return 0;
+        }
+        if let RefField::Prime(f) = self {
+            return f.legendre(&a[0]);
+        }
+        let e = (self.order() - 1u32) >> 1;
+        let r = self.pow(a, &e);
+        if r == self.one() {
+            1
+        } else {
+            assert_eq!(r, self.neg(&self.one()), "Euler criterion in extension");
+            -1
+        }
+    }
+    pub fn is_square(&self, a: &[BigUint]) -> bool {
+        self.legendre(a) >= 0
+    }
+    /// The Frobenius endomorphism `a ↦ a^(p^k)` computed as `k` literal `p`-th powers.
+    pub fn frobenius(&self, a: &[BigUint], k: usize) -> El {
+        let mut x = self.reduce(a);
+        for _ in 0..k {
+            x = self.pow(&x, self.p());
+        }
+        x
+    }
+    /// Square root. Prime fields: Tonelli–Shanks. Quadratic extension `K[X]/(X²−ν)`: from
+    /// `(c₀+c₁X)² = a₀+a₁X` ⇒ `c₀² = (a₀ ± √N)/2` with `N = a₀² − ν a₁²`, `c₁ = a₁/(2c₀)`.
+    /// Other towers: `None` is returned for non-squares, and a root is searched through the
+    /// quadratic top step when there is one; cubic top steps are not supported (panic).
+    pub fn sqrt(&self, a: &[BigUint]) -> Option<El> {
+        match self {
+            RefField::Prime(f) => f.sqrt(&a[0]).map(|v| vec![v]),
+            RefField::Ext(e) if e.n == 2 => {
+                let a = self.reduce(a);
+                let d = e.base.degree();
+                let (a0, a1) = (&a[..d], &a[d..]);
+                let k = &e.base;
+                if self.is_zero(&a) {
+                    return Some(self.zero());
+                }
+                let two_inv = k.invert(&k.from_int(&BigUint::from(2u32)))?;
+                if k.is_zero(a1) {
+                    // a ∈ K: either √a₀ ∈ K, or a₀/ν is a square in K and the root is √(a₀/ν)·X
+                    if let Some(r) = k.sqrt(a0) {
+                        return Some([r, k.zero()].concat());
+                    }
+                    let q = k.mul(a0, &k.invert(&e.nonres)?);
+                    return k.sqrt(&q).map(|r| [k.zero(), r].concat());
+                }
+                let norm = k.sub(&k.mul(a0, a0), &k.mul(&e.nonres, &k.mul(a1, a1)));
+                let s = k.sqrt(&norm)?;
+                for s in [s.clone(), k.neg(&s)] {
+                    let c0sq = k.mul(&k.add(a0, &s), &two_inv);
+                    if k.is_zero(&c0sq) {
+                        continue;
+                    }
+                    if let Some(c0) = k.sqrt(&c0sq) {
+                        let c1 = k.mul(a1, &k.invert(&k.double(&c0))?);
+                        let r = [c0, c1].concat();
+                        if self.mul(&r, &r) == a {
+                            return Some(r);
+                        }
+                    }
+                }
+                None
+            }
+            RefField::Ext(_) => panic!("reference sqrt over a cubic top step is not modelled"),
+        }
+    }
+}
+
+// ---------------------------------------------------------------------------------------------
+// standard parameters
+// ---------------------------------------------------------------------------------------------
+
+pub mod params {
+    //! Published parameters (as stated by the standards / original papers, *not* copied from the
+    //! repository): moduli and tower non-residues.
+    use super::*;
+
+    /// BLS12-381 base field modulus p (381 bits).
+    pub const BLS12_381_P: &str = "1a0111ea397fe69a4b1ba7b6434bacd764774b84f38512bf6730d2a0f6b0f6241eabfffeb153ffffb9feffffffffaaab";
+    /// BLS12-381 scalar field modulus r (255 bits) = order of G1/G2/Gt.
+    pub const BLS12_381_R: &str =
+        "73eda753299d7d483339d80809a1d80553bda402fffe5bfeffffffff00000001";
+    /// |x| of the BLS12-381 parametrisation (x = −0xd201000000010000).
+    pub const BLS12_381_X_ABS: &str = "d201000000010000";
+    /// Jubjub prime-order subgroup size (252 bits); the Jubjub base field is BLS12-381's r.
+    pub const JUBJUB_R: &str = "0e7db4ea6533afa906673b0101343b00a6682093ccc81082d0970e5ed6f72cb7";
+    /// secp256k1 base field 2²⁵⁶ − 2³² − 977.
+    pub const SECP256K1_P: &str =
+        "fffffffffffffffffffffffffffffffffffffffffffffffffffffffefffffc2f";
+    /// secp256k1 group order n.
+    pub const SECP256K1_N: &str =
+        "fffffffffffffffffffffffffffffffebaaedce6af48a03bbfd25e8cd0364141";
+    /// 2²⁵⁵ − 19.
+    pub const CURVE25519_P: &str =
+        "7fffffffffffffffffffffffffffffffffffffffffffffffffffffffffffffed";
+    /// ℓ = 2²⁵² + 27742317777372353535851937790883648493 (order of the Ed25519 base point).
+    pub const CURVE25519_L: &str =
+        "1000000000000000000000000000000014def9dea2f79cd65812631a5cf5d3ed";
+    /// BN254 (alt_bn128) base field q.
+    pub const BN254_Q: &str = "30644e72e131a029b85045b68181585d97816a916871ca8d3c208c16d87cfd47";
+    /// BN254 scalar field r.
+    pub const BN254_R: &str = "30644e72e131a029b85045b68181585d2833e84879b9709143e1f593f0000001";
+    /// BN parameter x = 4965661367192848881.
+    pub const BN254_X: u64 = 4965661367192848881;
+
+    pub fn bls12_381_fp() -> RefField {
+        RefField::prime(hex(BLS12_381_P))
+    }
+    pub fn bls12_381_fr() -> RefField {
+        RefField::prime(hex(BLS12_381_R))
+    }
+    /// Fp2 = Fp[u]/(u² + 1)
+    pub fn bls12_381_fp2() -> RefField {
+        let f = bls12_381_fp();
+        let m1 = f.neg(&f.one());
+        f.extend(2, m1)
+    }
+    /// Fp6 = Fp2[v]/(v³ − (u + 1))
+    pub fn bls12_381_fp6() -> RefField {
+        bls12_381_fp2().extend(3, vec![BigUint::one(), BigUint::one()])
+    }
+    /// Fp12 = Fp6[w]/(w² − v)
+    pub fn bls12_381_fp12() -> RefField {
+        let f6 = bls12_381_fp6();
+        let mut v = f6.zero();
+        v[2] = BigUint::one(); // c1.c0 = 1  ⇒  v
+        f6.extend(2, v)
+    }
+    pub fn jubjub_fr() -> RefField {
+        RefField::prime(hex(JUBJUB_R))
+    }
+    pub fn secp256k1_fp() -> RefField {
+        RefField::prime(hex(SECP256K1_P))
+    }
+    pub fn secp256k1_fq() -> RefField {
+        RefField::prime(hex(SECP256K1_N))
+    }
+    pub fn curve25519_fp() -> RefField {
+        RefField::prime(hex(CURVE25519_P))
+    }
+    pub fn curve25519_scalar() -> RefField {
+        RefField::prime(hex(CURVE25519_L))
+    }
+    pub fn bn254_fq() -> RefField {
+        RefField::prime(hex(BN254_Q))
+    }
+    pub fn bn254_fr() -> RefField {
+        RefField::prime(hex(BN254_R))
+    }
+    /// Fq2 = Fq[u]/(u² + 1)
+    pub fn bn254_fq2() -> RefField {
+        let f = bn254_fq();
+        let m1 = f.neg(&f.one());
+        f.extend(2, m1)
+    }
+    /// Fq6 = Fq2[v]/(v³ − (u + 9))
+    pub fn bn254_fq6() -> RefField {
+        bn254_fq2().extend(3, vec![BigUint::from(9u32), BigUint::one()])
+    }
+    /// Fq12 = Fq6[w]/(w² − v)
+    pub fn bn254_fq12() -> RefField {
+        let f6 = bn254_fq6();
+        let mut v = f6.zero();
+        v[2] = BigUint::one();
+        f6.extend(2, v)
+    }
+}
+
+// ---------------------------------------------------------------------------------------------
+// self test
+// ---------------------------------------------------------------------------------------------
+
+/// Published identities and internal consistency of the model. `Err` describes the first failure.
+pub fn selftest() -> Result<(), String> {
+    use params::*;
+    macro_rules! ensure {
+        ($c:expr, $($m:tt)*) => { if !($c) { return Err(format!($($m)*)); } };
+    }
+    let big = |v: u64| BigUint::from(v);
+
+    // -- the parameters are the published ones -------------------------------------------------
+    for (name, h, bits) in [
+        ("bls12-381 p", BLS12_381_P, 381),
+        ("bls12-381 r", BLS12_381_R, 255),
+        ("jubjub r", JUBJUB_R, 252),
+        ("secp256k1 p", SECP256K1_P, 256),
+        ("secp256k1 n", SECP256K1_N, 256),
+        ("2^255-19", CURVE25519_P, 255),
+        ("ed25519 l", CURVE25519_L, 253),
+        ("bn254 q", BN254_Q, 254),
+        ("bn254 r", BN254_R, 254),
+    ] {
+        let p = hex(h);
+        ensure!(p.bits() == bits, "{name}: {} bits, expected {bits}", p.bits());
+        ensure!(is_probable_prime(&p), "{name} is not prime");
+    }
+    // BLS12: r = x⁴ − x² + 1, p = (x − 1)² r / 3 + x with x = −|x|
+    {
+        let x = hex(BLS12_381_X_ABS);
+        let x2 = &x * &x;
+        let r = &x2 * &x2 - &x2 + 1u32;
+        ensure!(r == hex(BLS12_381_R), "BLS12-381 r does not match x^4 - x^2 + 1");
+        let xm1sq = (&x + 1u32) * (&x + 1u32); // (x − 1)² with x negative
+        let p = (&xm1sq * &r) / 3u32 - &x;
+        ensure!(((&xm1sq * &r) % 3u32).is_zero(), "BLS12-381 (x-1)^2 r not divisible by 3");
+        ensure!(p == hex(BLS12_381_P), "BLS12-381 p does not match (x-1)^2 r/3 + x");
+    }
+    // BN: q = 36x⁴+36x³+24x²+6x+1, r = 36x⁴+36x³+18x²+6x+1
+    {
+        let x = big(BN254_X);
+        let (x2, x3, x4) = (&x * &x, &x * &x * &x, &x * &x * &x * &x);
+        let q = &x4 * 36u32 + &x3 * 36u32 + &x2 * 24u32 + &x * 6u32 + 1u32;
+        let r = &x4 * 36u32 + &x3 * 36u32 + &x2 * 18u32 + &x * 6u32 + 1u32;
+        ensure!(q == hex(BN254_Q), "BN254 q does not match the BN polynomial");
+        ensure!(r == hex(BN254_R), "BN254 r does not match the BN polynomial");
+    }
+    ensure!(
+        hex(SECP256K1_P) == (BigUint::one() << 256) - (BigUint::one() << 32) - 977u32,
+        "secp256k1 p"
+    );
+    ensure!(hex(CURVE25519_P) == (BigUint::one() << 255) - 19u32, "2^255-19");
+    ensure!(
+        hex(CURVE25519_L)
+            == (BigUint::one() << 252)
+                + BigUint::parse_bytes(b"27742317777372353535851937790883648493", 10).unwrap(),
+        "ed25519 l"
+    );
+    // Jubjub: #E = 8 r must lie in the Hasse interval of GF(r_bls)
+    {
+        let q = hex(BLS12_381_R);
+        let n = hex(JUBJUB_R) * 8u32;
+        let diff = if n > &q + 1u32 { &n - (&q + 1u32) } else { (&q + 1u32) - &n };
+        ensure!(&diff * &diff <= &q * 4u32, "8·r_jubjub outside the Hasse interval of GF(r_bls)");
+    }
+
+    // -- classical facts -------------------------------------------------------------------------
+    // two-adicities: BLS r: 32, BN r: 28, BN q: 1, BLS p: 1, jubjub r: 1, 2^255-19: 2, l: 2,
+    // secp256k1 p: 1, n: 6
+    for (name, h, s) in [
+        ("bls r", BLS12_381_R, 32u32),
+        ("bn r", BN254_R, 28),
+        ("bn q", BN254_Q, 1),
+        ("bls p", BLS12_381_P, 1),
+        ("jubjub r", JUBJUB_R, 1),
+        ("2^255-19", CURVE25519_P, 2),
+        ("l", CURVE25519_L, 2),
+        ("secp p", SECP256K1_P, 1),
+        ("secp n", SECP256K1_N, 6),
+    ] {
+        let f = RefPrime::from_hex(h);
+        ensure!(f.two_adicity().0 == s, "{name}: two-adicity {} expected {s}", f.two_adicity().0);
+    }
+    // quadratic character of −1 and 2: (−1/p) = 1 iff p ≡ 1 (4); (2/p) = 1 iff p ≡ ±1 (8)
+    for h in [
+        BLS12_381_P,
+        BLS12_381_R,
+        JUBJUB_R,
+        SECP256K1_P,
+        SECP256K1_N,
+        CURVE25519_P,
+        CURVE25519_L,
+        BN254_Q,
+        BN254_R,
+    ] {
+        let f = RefPrime::from_hex(h);
+        let m1 = &f.p - 1u32;
+        let want_m1 = if (&f.p % 4u32) == big(1) { 1 } else { -1 };
+        ensure!(f.legendre(&m1) == want_m1, "(-1/p) for {h}");
+        let r8 = (&f.p % 8u32).to_u64_digits().first().copied().unwrap_or(0);
+        let want_2 = if r8 == 1 || r8 == 7 { 1 } else { -1 };
+        ensure!(f.legendre(&big(2)) == want_2, "(2/p) for {h}");
+        ensure!(f.legendre(&big(0)) == 0 && f.legendre(&big(1)) == 1 && f.legendre(&big(4)) == 1, "trivial symbols {h}");
+        // 7 generates GF(r_bls)*, 5 generates GF(r_bn)* — at least they must be non-squares
+        // sqrt round trips and inverse cross-check on a few fixed values
+        for v in [2u64, 3, 5, 7, 0xdead_beef, u64::MAX] {
+            let v = f.reduce(&(big(v) * big(0x1_0000_0001) + 12345u32));
+            let sq = f.square(&v);
+            let r = f.sqrt(&sq).ok_or("sqrt of a square failed")?;
+            ensure!(r == v || r == f.neg(&v), "sqrt round trip {h}");
+            ensure!(f.invert(&v) == f.invert_fermat(&v), "egcd inverse != Fermat inverse {h}");
+            ensure!(f.mul(&v, &f.invert(&v).unwrap()).is_one(), "v * v^-1 != 1 {h}");
+            ensure!(f.pow(&v, &(&f.p - 1u32)).is_one(), "Fermat little theorem {h}");
+            ensure!(f.pow(&v, &f.p) == v, "v^p != v {h}");
+            let ns = f.mul(&sq, &f.smallest_nonsquare());
+            ensure!(f.sqrt(&ns).is_none(), "sqrt of a non-square succeeded {h}");
+        }
+        ensure!(f.invert(&big(0)).is_none(), "0 has an inverse");
+    }
+    ensure!(RefPrime::from_hex(BLS12_381_R).legendre(&big(7)) == -1, "7 must be a non-residue mod r_bls");
+    ensure!(RefPrime::from_hex(BN254_R).legendre(&big(5)) == -1, "5 must be a non-residue mod r_bn");
+    // wide reduction
+    {
+        let f = RefPrime::from_hex(BLS12_381_R);
+        let mut b = [0u8; 64];
+        b[32] = 1; // 2^256
+        ensure!(
+            f.reduce_le_bytes(&b) == hex("1824b159acc5056f998c4fefecbc4ff55884b7fa0003480200000001fffffffe"),
+            "2^256 mod r_bls (published Montgomery R)"
+        );
+    }
+
+    // -- towers ----------------------------------------------------------------------------------
+    for (name, f2, f6, f12) in [
+        ("bls12-381", bls12_381_fp2(), bls12_381_fp6(), bls12_381_fp12()),
+        ("bn254", bn254_fq2(), bn254_fq6(), bn254_fq12()),
+    ] {
+        ensure!(f2.degree() == 2 && f6.degree() == 6 && f12.degree() == 12, "{name} degrees");
+        let p = f2.p().clone();
+        // u² = −1
+        let u = vec![big(0), big(1)];
+        ensure!(f2.mul(&u, &u) == f2.neg(&f2.one()), "{name}: u^2 != -1");
+        // −1 must be a non-residue in Fp (p ≡ 3 mod 4) for u²+1 to be irreducible
+        ensure!((&p % 4u32) == big(3), "{name}: p != 3 mod 4");
+        // ξ must be neither a square nor a cube in Fp2 (so that v³−ξ, w²−v are irreducible):
+        let (xi, f2e) = match &f6 {
+            RefField::Ext(e) => (e.nonres.clone(), e.base.clone()),
+            _ => unreachable!(),
+        };
+        let q2m1 = f2e.order() - 1u32;
+        ensure!(f2e.pow(&xi, &(&q2m1 >> 1)) != f2e.one(), "{name}: xi is a square in Fp2");
+        ensure!((&q2m1 % 3u32).is_zero(), "{name}: 3 does not divide p^2-1");
+        ensure!(f2e.pow(&xi, &(&q2m1 / 3u32)) != f2e.one(), "{name}: xi is a cube in Fp2");
+        // v³ = ξ, w² = v
+        let mut v = f6.zero();
+        v[2] = big(1);
+        let v3 = f6.mul(&f6.mul(&v, &v), &v);
+        let mut xi6 = f6.zero();
+        xi6[..2].clone_from_slice(&xi);
+        ensure!(v3 == xi6, "{name}: v^3 != xi");
+        let mut w = f12.zero();
+        w[6] = big(1);
+        let mut v12 = f12.zero();
+        v12[2] = big(1);
+        ensure!(f12.mul(&w, &w) == v12, "{name}: w^2 != v");
+        // inverse, Frobenius, Lagrange on a fixed pseudo-random element of each level
+        for f in [&f2, &f6, &f12] {
+            let x: El = (0..f.degree())
+                .map(|i| (big(0x9e37_79b9_7f4a_7c15) * big(i as u64 + 3)).modpow(&big(7), &p))
+                .collect();
+            let y = f.invert(&x).ok_or("tower inverse failed")?;
+            ensure!(f.mul(&x, &y) == f.one(), "{name}: x * x^-1 != 1 (degree {})", f.degree());
+            ensure!(f.invert(&f.zero()).is_none(), "{name}: zero inverted");
+            // (a+b)(a−b) = a² − b²
+            let b: El = x.iter().rev().cloned().collect();
+            ensure!(
+                f.mul(&f.add(&x, &b), &f.sub(&x, &b)) == f.sub(&f.square(&x), &f.square(&b)),
+                "{name}: ring identity"
+            );
+            if f.degree() <= 6 {
+                // x^(|K|) = x  (Frobenius of full degree is the identity)
+                ensure!(f.frobenius(&x, f.degree()) == f.reduce(&x), "{name}: x^(p^deg) != x");
+            }
+        }
+        // Fp2 square roots
+        let x = vec![big(3), big(5)];
+        let sq = f2.square(&x);
+        let r = f2.sqrt(&sq).ok_or("Fp2 sqrt failed")?;
+        ensure!(r == x || r == f2.neg(&x), "{name}: Fp2 sqrt round trip");
+        ensure!(f2.legendre(&sq) == 1, "{name}: Fp2 legendre of a square");
+        ensure!(f2.sqrt(&f2.mul(&sq, &xi)).is_none(), "{name}: Fp2 sqrt of non-square");
+        ensure!(f2.legendre(&f2.mul(&sq, &xi)) == -1, "{name}: Fp2 legendre of a non-square");
+        // every element of Fp is a square in Fp2
+        let ns = f2.from_int(&f2.prime_field().smallest_nonsquare());
+        let r = f2.sqrt(&ns).ok_or("sqrt of base non-residue in Fp2")?;
+        ensure!(f2.square(&r) == ns, "{name}: sqrt of a base-field non-residue in Fp2");
+    }
+    Ok(())
+}
